@@ -12,7 +12,7 @@ SPEC_DRIVER = "drivers/SpecC17.lean"
 DRIVER_MODULES = ["BioCantor.Driver.Main", "BioCantor.Driver.Tbl"]
 SPEC_DRIVER_MODULES = ["BioCantor.Driver.Main", "BioCantor.Driver.SpecTbl"]
 GEN_NEEDS = ["startCodons", "aacodons", "gencode"]
-MODEL_OPS = {"locstr", "quals", "cdsfeat", "tblgene", "locustags"}
+MODEL_OPS = {"locstr", "quals", "cdsfeat", "tblgene", "locustags", "seed"}
 ERR_CLASS = False
 RULE = ("one case = one operation: one `_location_to_str` / `_qualifiers_to_str` call, one CDSTblFeature of a "
         "one-transcript gene (`cdsfeat`), one TblGene (`tblgene`), one locus-tag run over several collections, or one "
@@ -237,6 +237,10 @@ def cases(run):
         yield quals_line(rng, run)
     # ---- cdsfeat: designed product
     yield from cdsfeat_designed(run)
+    # ---- seeding (`if random_seed:` — F-C17a)
+    for sd in ["~", "0", "1", "-1", "7", "123", str(2 ** 40), "00"]:
+        run.count("seed-op")
+        yield f"seed {sd}"
     # ---- locus tags
     for prefix in ["LT", "test", "a_b", "X9"]:
         for step in [1, 2, 5, 10, 1000, 0, -3]:
